@@ -5,7 +5,7 @@ import common as C
 import ari
 from streams import Result, diff
 from s_wire import gen_text, exc_classes, make_exc, script_toks, mods
-from s_keepalive import _RM, fr
+from s_keepalive import _RM, fr, spec
 
 VERSIONS = [None, "1.8.0", "1.8.1", "1.8.2", "1.8.3", "1.8.4", "1.8.10", "1.8.", "1.8", "1.9.0", "1.9.1", "1.9.00", "1.9",
             "1.10.0", "1.10.1", "2.0.0", "2.1", "10.8.0", "0.9", "1.7.9", "1.8.x", "01.8.0", " 1.8.0", "1.8.0 ", "text", "1.9.0.1",
@@ -63,7 +63,7 @@ def c_dict(d):
     return "d{ " + " ".join(out) + " }"
 
 
-def stream_init(tier):
+def stream_init(tier, keepalive_oracle=False):
     p, dp, mp = mods()
     R = C.rng("init")
     res = Result("init-differential")
@@ -141,6 +141,15 @@ def stream_init(tier):
                 res.distribution["%s_%s" % (kind, "refused" if not inits else "raised" if init_out[0] == "raise" else "ok")] += 1
                 if reply is None:
                     continue
+                # ---- C12 on the real code: whatever the outcome, the interval in force is the rule's
+                hdict = dict(pairs).get("keepalive_hint.millis")
+                want_ka = spec(None if ka is None else Fraction(ka), None if hdict is None else Fraction(float(hdict)))
+                if keepalive_oracle and (float(Fraction(rm.sender)) != float(want_ka) or float(Fraction(srv.keep_alive)) != float(want_ka)):
+                    res.violation("keepalive-after-init", "after a %s init request (version %r, initialize %s) the keepalive in force is %s s / published %s s "
+                                  "(property: %s s) for keep_alive=%r hint=%r on the %s server" % (
+                                      "refused" if not inits else "failed" if init_out[0] == "raise" else "successful", v_eff,
+                                      "not called" if not inits else init_out[0], rm.sender, srv.keep_alive, float(want_ka), ka, hdict, kind),
+                                  {"kind": kind, "version": v_eff, "tokens": toks, "keep_alive": ka, "hint": hdict, "initialize": repr(init_out)})
                 # ---- the table on the real code
                 inp = {"kind": kind, "version": v_eff, "tokens": toks, "local": local, "config_file": cfgfile,
                        "initialize": repr(init_out)}
@@ -179,6 +188,11 @@ def stream_init(tier):
     res.sample({"op": ops[len(ops) // 2], "impl": impl[len(ops) // 2]})
     diff(res, ops, impl)
     return res
+
+
+def stream_init_keepalive(tier):
+    """the init differential with C12's rule evaluated on the interval in force after every init outcome."""
+    return stream_init(tier, keepalive_oracle=True)
 
 
 def stream_pool(tier):
